@@ -16,7 +16,8 @@ RULE = ("all binary tree shapes with 2..8 leaves (quick: all shapes to 5 leaves 
         "witness below the proof, PUSH2-sized) x every leaf: the leaf's unlocking script + the tree's locking script runs exactly the level scripts of its path and that leaf, "
         "nothing else, with the leaf's own verdict; corruptions per level (script byte, sibling-hash byte, script/sibling swapped, two levels swapped, foreign leaf, whole foreign proof): "
         "verdict false and the altered script never handed to run_tape, no leaf marker written; prioritized / balanced builders with 1..24 leaves incl. filler leaves; "
-        "pack -> unpack preserves root and every unlocking script; non-trivial = all; distinct = distinct (shape, leaf scripts, leaf, corruption)")
+        "pack -> unpack preserves root and every unlocking script, also with the same leaf script at several non-sibling positions and after several trees were read back; "
+        "a leaf gives the same result through the tree as on its own under non-default embedder flags (ts_threshold, integer flags); non-trivial = all; distinct = distinct (shape, leaf scripts, leaf, corruption)")
 
 
 @lru_cache(maxsize=None)
@@ -239,6 +240,75 @@ def run(ctx: Ctx) -> Result:
             newleaf = marker(200) + T.Script.from_src('true').bytes
             check_rejected(f'leaf {sp.i}: uncommitted script', lock, serialise(T, with_pair(0, (pairs[0][0], newleaf))), {newleaf}, inp)
 
+    # ---------------------------------------------------------------- the same leaf script at several (non-sibling) positions, several trees
+    def dup_tree(shape, codes_):
+        leaves_ = []
+        ci = iter(codes_)
+        def go(s_):
+            if s_ == 'L':
+                lf = T.ScriptLeaf.from_code(next(ci)); leaves_.append(lf); return lf
+            return T.ScriptNode(go(s_[0]), go(s_[1]))
+        return go(shape), leaves_
+    A = marker(50) + T.Script.from_src('true').bytes; Bc = marker(51) + T.Script.from_src('push d1 push d1 equal').bytes
+    Cc = marker(52) + T.Script.from_src('false').bytes; Dc = marker(53) + T.Script.from_src('true').bytes
+    dup_cases = [((('L', 'L'), ('L', 'L')), [A, Bc, Cc, A]), (('L', ('L', ('L', 'L'))), [A, Bc, A, Cc]), ((('L', 'L'), 'L'), [A, Bc, A]),
+                 ((('L', ('L', 'L')), ('L', 'L')), [A, Bc, Cc, Dc, A]), ((('L', 'L'), (('L', 'L'), 'L')), [Bc, A, Cc, A, Dc])]
+    unpacked = []
+    for shape, cs in dup_cases:
+        tree, lvs = dup_tree(shape, cs)
+        lockb = tree.locking_script().bytes
+        inp = {'shape': repr(shape), 'leaves': [c.hex() for c in cs], 'note': 'the same leaf script at two non-sibling positions'}
+        unl = [lf.unlocking_script().bytes for lf in lvs]
+        for i, (lf, u) in enumerate(zip(lvs, unl)):
+            res.note_case(('dup', repr(shape), i))
+            own = auth([lf.script.bytes], record=False)[0]
+            ok, o, tapes = auth([u, lockb])
+            if ok != own or [t for t in tapes[2:] if not (len(t) == 33 and t[0] == 60)][:1] != [lf.script.bytes]:
+                B.viol(f'duplicate-leaf tree: leaf {i} does not run alone with its own verdict', {**inp, 'leaf': i, 'scripts': [u.hex(), lockb.hex()]}, own, o[:80])
+        try:
+            back = T.ScriptNode.unpack(tree.pack())
+            unpacked.append((back, unl, lockb, inp))
+            tree_lines.append(('TREE ' + ' '.join(tokens(T, tree)),
+                               f'root={tree.root().hex()} lock={lockb.hex()} pack={tree.pack().hex()} unpack=same unlock=' + '|'.join(x.hex() for x in unl)))
+        except BaseException as e:
+            B.viol('duplicate-leaf tree: pack / unpack raised', inp, 'round trip', type(e).__name__)
+    # judged after *all* trees were read back: reading one tree must not disturb another
+    for back, unl, lockb, inp in unpacked:
+        res.note_case(('dup-unpack', inp['shape']))
+        got = [l.unlocking_script().bytes for l in all_leaves(T, back)]
+        if back.root() != lockb[1:] or got != unl:
+            k = next((i for i, (a, b_) in enumerate(zip(got, unl)) if a != b_), -1)
+            B.viol('pack -> unpack changed the root or a leaf\'s unlocking script (same leaf script at several positions / several trees read back)',
+                   {**inp, 'leaf': k}, unl[k].hex()[:120] if k >= 0 else lockb.hex(), got[k].hex()[:120] if k >= 0 else back.root().hex())
+            continue
+        for i, (l, u) in enumerate(zip(all_leaves(T, back), got)):
+            ok, o, tapes = auth([u, lockb], record=False)
+            if ok != auth([l.script.bytes], record=False)[0]:
+                B.viol('unpacked tree: a leaf\'s unlocking script no longer unlocks the tree\'s lock', {**inp, 'leaf': i, 'scripts': [u.hex(), lockb.hex()]}, 'own verdict', o[:80])
+
+    # ---------------------------------------------------------------- the embedder's configuration reaches the leaf (own verdict under the same flags)
+    N = {'CTS': 37, 'GETV': 64}
+    for it in range(ctx.n(30, 300)):
+        fcfg = vmrun.Cfg(now=B.now)
+        fcfg.ts = rng.choice([0, 10, 3600])
+        fcfg.mask = rng.choice([2047, 2047 ^ 2, 2047 ^ 512])
+        ahead = rng.choice([0, 5, 30, 59, 60, 61, 300, 4000])
+        cache = {**sf, 'timestamp': B.now + ahead}
+        cons = (B.now - rng.choice([0, 5])).to_bytes(5, 'big')
+        body = rng.choice([push(T, cons) + bytes([N['CTS']]),
+                           push(T, V.rbytes(rng, 32)) + bytes([75, 6]) + bytes([11, 1]) + b'x' + push(T, b'\x01') + bytes([33]),      # derive_scalar pop0; size of cache x == 1 ?
+                           T.Script.from_src('true').bytes])
+        code = marker(60) + body
+        other = marker(61) + T.Script.from_src('false').bytes
+        tree = T.ScriptNode(T.ScriptLeaf.from_code(code), T.ScriptNode(T.ScriptLeaf.from_code(other), T.ScriptLeaf.from_code(marker(62) + b'\x01')))
+        lf = tree.left
+        script = lf.unlocking_script().bytes + tree.locking_script().bytes
+        res.note_case(('flags', fcfg.line(), ahead, code))
+        own = vmrun.run_impl(fcfg, cache, code); via = vmrun.run_impl(fcfg, cache, script)
+        fo, fv = vmrun.fields(own), vmrun.fields(via)
+        if (fo['status'] == 'OK') != (fv['status'] == 'OK') or (fo['status'] == 'OK' and fo.get('stack') != fv.get('stack')):
+            B.viol('a leaf gives a different result through the tree than on its own under the same embedder flags',
+                   {'cfg': fcfg.line(), 'cache': vmrun.cache_str(cache, False), 'leaf': code.hex(), 'script': script.hex()}, own[:100], via[:100])
     # ---------------------------------------------------------------- builders
     maxn = 24
     sizes = list(range(1, maxn + 1)) if ctx.tier == 'thorough' else [1, 2, 3, 4, 5, 7, 8, 9, 16, 17, 24]
